@@ -43,3 +43,7 @@ package strutil
 //@ func ShellEscapeExceptTilde
 //@   modifies nothing
 //@   ensures shape: exists r string {replaceAll(s, "'", r)} {replaceAll(s[2:], "'", r)} :: goodRepl(r) && result == ite(len(s) >= 2 && s[0:2] == "~/", "~/" + quoteWith(s[2:], r), quoteWith(s, r))
+
+//@ func SliceContain
+//@   modifies nothing
+//@   attr assumed generic
